@@ -252,12 +252,22 @@ def check_surface(case, ctx):
                     c_.weights = [1.0, 2.0, 0.5, 1.5, 1.0][:len(pts_)]
                 return c_
             if kind_ == 'container':
-                tr = multi.CurveContainer(spl(loop[:3], False), spl(loop[2:], False))
+                if rng.random() < 0.5:
+                    tr = multi.CurveContainer(spl(loop[:3], False), spl(loop[2:], False))
+                else:
+                    # three or four pieces (with two, reversing each piece happens to give a loop again)
+                    tr = multi.CurveContainer(spl(loop[0:2], False), spl(loop[1:3], False), spl(loop[2:4], False), spl(loop[3:5], False))
             else:
                 tr = spl(loop, kind_ == 'rational-spline')
         ts.trims = [tr]
         ctx.tag('transpose:trimmed', 'transpose:trim-' + kind_)
         before = [list(ts.evaluate_single((x, y))) for x, y in loop]
+
+        def tpts0(t_):
+            if t_.type == 'container':
+                return [p_ for e_ in t_ for p_ in tpts0(e_)]
+            return [list(p_) for p_ in (t_.evalpts if t_.type == 'freeform' else t_.ctrlpts)]
+        trims_before = [p_ for t_ in ts.trims for p_ in tpts0(t_)]
         tt = operations.transpose(ts, inplace=False)
         (ua2, ub2), (va2, vb2) = G.domains_of(tt)
         def tpts(t_):
@@ -271,7 +281,7 @@ def check_surface(case, ctx):
             sc_ = max(1.0, max(abs(c) for q_ in before for c in q_))
             # same boundary as a point set (either orientation)
             ok_t = all(min(max(abs(a - b) for a, b in zip(q_, r_)) for r_ in after) <= 1e-9 * sc_ for q_ in before)
-        ctx.check([list(p_) for t_ in ts.trims for p_ in tpts(t_)][:len(loop)] == [list(p_) for p_ in (loop if kind_ != 'container' else loop[:3] + loop[2:])][:len(loop)],
+        ctx.check([list(p_) for t_ in ts.trims for p_ in tpts(t_)] == trims_before,
                   'transpose/input-trims-modified', 'transpose(inplace=False) changed the trim curves of its input', what='transpose')
         if ok_t and kind_ in ('freeform', 'spline'):
             # the sense of a trim whose 'reversed' flag is unset is derived from its orientation (trimming.fix_trim_curves): the same region
@@ -285,6 +295,12 @@ def check_surface(case, ctx):
                 na_nb.append(len(surf_.faces))
             ctx.check(abs(na_nb[0] - na_nb[1]) <= 0.2 * max(na_nb), 'transpose/trim-sense-flipped', 'trimmed tessellation keeps %d faces before and %d '
                       'after transposition (sense derived from the trim orientation): the complement region is kept' % tuple(na_nb), what='transpose')
+        if kind_ == 'container' and tt.trims and tt.trims[0].type == 'container':
+            # a loop made of several curves is still a loop: every piece starts where the previous one ended (in either sense of traversal)
+            pcs = [[list(p_) for p_ in e_.ctrlpts] for e_ in tt.trims[0]]
+            gaps = [max(abs(a - b) for a, b in zip(pcs[k_][-1], pcs[(k_ + 1) % len(pcs)][0])) for k_ in range(len(pcs))]
+            ctx.check(max(gaps) <= 1e-9 * max(1.0, abs(ub2), abs(vb2)), 'transpose/trim-loop-broken', 'transpose of a surface trimmed by a loop of %d '
+                      'curves: consecutive curves of the transposed loop no longer join end to start (gaps %r)' % (len(pcs), gaps), what='transpose')
         ctx.check(ok_t, 'transpose/trims-not-transposed', 'transpose of a trimmed surface: the trim boundary no longer bounds the same region of the '
                   'surface (its curves keep their (u, v) coordinates while u and v swap roles)', what='transpose')
     # flip: net reversed in both directions
